@@ -284,6 +284,10 @@ def check_round(o, tr):
                 else:
                     o.origin[u] = "use"
                 if la in BIDS and after["final"][BIDS.index(la)] is None:
+                    # dangling from birth: the link refers to the collected incarnation.  If the Build-Id is installed
+                    # again later the path resolves, but this workspace is no user of the new package (consequence of
+                    # the violation reported here, not a new one)
+                    o.stale.add(u)
                     cs = collect_step.get(la)
                     cb = collected_by.get(la)
                     forced = cb is not None and procs[cb]["op"] == "gc" and procs[cb]["pruneUsed"]
@@ -774,7 +778,10 @@ def _count_trace(ctx, traces):
 
 def run_cases(ctx, cases, tag, reserve=0.0):
     """run cases in parallel workers; drawn cases stop at a deadline that keeps the check inside its time budget"""
-    dl = time.time() + max(5.0, min(ctx.scale(25.0, 120.0), ctx.time_left() - reserve))
+    # BOB_VERIF_C15_PATIENCE=k (development): k times longer per-batch deadline, to replay the seeded stream of an idle
+    # machine on a loaded one
+    patience = float(os.environ.get("BOB_VERIF_C15_PATIENCE", "1"))
+    dl = time.time() + max(5.0, min(ctx.scale(25.0, 120.0) * patience, ctx.time_left() - reserve))
     for c in cases:
         if "gen" in c:
             c["deadline"] = dl
@@ -824,6 +831,9 @@ def oracle(ctx):
                 ctx.skip("a process did not reach its next cut point in time (machine overloaded?)")
         done += len(cs)
     ctx.notes["oracle_cases"] = done
+    if done < n // 4:
+        # visible in the evidence: the explored prefix of the seeded stream depends on how fast the machine is
+        ctx.skip("only %d of %d drawn oracle cases were explored inside the time budget (machine overloaded?)" % (done, n))
     if ctx.tier == "thorough":
         stress(ctx)
 
